@@ -26,12 +26,11 @@ def run {α} [Add α] [LT α] [DecidableLT α] (zero : α) (shw : α → String)
   else
     let rows := m.length
     let C := fn zero m
-    let better : α → α → Bool := fun a b => if mode = 0 then decide (a < b) else decide (b < a)
     match cmd with
     | "part" =>
       let t := tables zero rows C mode
       s!"{showList toString (backward t.M (rows - 1))} {shw (t.D 0 (rows - 2))}"
-    | "opt" => shw (opt better (· + ·) C (rows - 1) 0 (rows - 2)).1
+    | "opt" => shw (opt (better mode) (· + ·) C (rows - 1) 0 (rows - 2)).1
     | "seg" => showList toString (optimalSegmentation zero rows (fun i e => C i (e + 1).toNat) mode)
     | "simp" => showList toString (optimalSimplification zero (List.range rows) (fun i e => C i (e + 1).toNat) mode)
     | "simplify" =>
